@@ -71,7 +71,7 @@ func Meta() core.Meta {
 	}
 }
 
-var errCodes = []int64{6, 12, 14, 18, 60}
+var errCodes = []int64{6, 12, 14, 18, 60, 68, 68}
 
 func Gen(caseID, tier string) (json.RawMessage, error) {
 	kind, n, err := engine.ParseCase(caseID)
